@@ -144,7 +144,7 @@ def validate_input_value_impl(
                 suggestion = (
                     ""
                     if hide_suggestions
-                    else did_you_mean(suggestion_list(field_name, list(field_defs)))
+                    else did_you_mean(suggestion_list(str(field_name), list(field_defs)))
                 )
                 report_invalid_value(
                     on_error,
